@@ -21,6 +21,46 @@ theorem valOf_of_asSet {s : MState} {key : Bytes} {x : AList Unit} (h : asSet s 
   · next v hv => cases h; exact hv
   · cases h
 
+theorem valOf_putMeta_other (s : MState) (key : Bytes) (m : Meta) (k : Bytes) (hk : k ≠ key) :
+    valOf (putMeta s key m) k = valOf s k := by
+  simp only [valOf, getMeta_putMeta_other s key m k hk]
+
+/-- a hot value survives a `writeKey` with a nil constructor on any key (it locks, counts, loads a cold
+    record; it never replaces a value that is present) -/
+theorem valOf_writeKey_none (s : MState) (now : Int) (key k : Bytes) (v : Val) (hv : valOf s k = some v) :
+    valOf (writeKey s now key none).1 k = some v := by
+  by_cases hk : k = key
+  · subst hk
+    unfold writeKey
+    split
+    · next m0 hm =>
+      have hm0 : m0.value = some v := by simpa [valOf, hm] using hv
+      have h1 : valOf (putMeta (lockW s k) k { m0 with count := m0.count + 1 }) k = some v := by
+        simp only [valOf, getMeta_putMeta_same, Option.bind_some, hm0]
+      simp only []
+      split
+      · split
+        · exact h1
+        · split
+          · exact h1
+          · next hn => simp [hm0] at hn
+      · exact h1
+    · exact hv
+  · have hL : valOf (lockW s key) k = valOf s k := by simp only [valOf, getMeta_congr (index_lockW s key) k]
+    unfold writeKey
+    split
+    · simp only []
+      split
+      · split
+        · rw [valOf_putMeta_other _ _ _ _ hk, hL]; exact hv
+        · split
+          · rw [valOf_putMeta_other _ _ _ _ hk, hL]; exact hv
+          · split
+            · rw [valOf_putMeta_other _ _ _ _ hk, valOf_putMeta_other _ _ _ _ hk, hL]; exact hv
+            · rw [valOf_putMeta_other _ _ _ _ hk, hL]; exact hv
+      · rw [valOf_putMeta_other _ _ _ _ hk, hL]; exact hv
+    · exact hv
+
 /-- a left fold over the state alone whose every step is a closed frame -/
 theorem frame_foldl_state {β : Type} (f : MState → β → MState) (hf : ∀ s x, Frame [] s (f s x)) :
     ∀ (xs : List β) (s : MState), Frame [] s (xs.foldl f s)
@@ -109,6 +149,13 @@ theorem frame_rotate (left : Bool) (src dst : Bytes) : Frame [] s (Api.rotate le
   · split
     · exact h
     · next l hl =>
+      -- the added destination probe `writeKey … dst none`: one more closed frame
+      have h := h.writeKeyNone now dst
+      generalize Store.writeKey s1 now dst none = w2 at h ⊢
+      obtain ⟨s2, dok⟩ := w2
+      dsimp only at h ⊢
+      split
+      · exact h
       split
       · exact h
       · next vs hvs =>
@@ -241,12 +288,20 @@ theorem frame_smove (src dst member : Bytes) : Frame [] s (Api.smove s now src d
   · split
     · exact h
     · next st hst =>
+      -- the added destination probe `writeKey … dst none`: one more closed frame, the source value stays
+      have hv2 := valOf_writeKey_none s1 now dst src _ (valOf_of_asSet hst)
+      have h := h.writeKeyNone now dst
+      generalize Store.writeKey s1 now dst none = w2 at h hv2 ⊢
+      obtain ⟨s2, dok⟩ := w2
+      dsimp only at h hv2 ⊢
+      split
+      · exact h
       split
       · next hm =>
         -- nothing was removed: the value written back is the value that was there
         have e : (DsSet.srem st [member]).1 = st := srem_single_zero (m := (DsSet.srem st [member]).2) rfl hm
         rw [e]
-        exact h.trans0 (frame_setVal_same s1 (h.pebble hp) src _ (valOf_of_asSet hst))
+        exact h.trans0 (frame_setVal_same s2 (h.pebble hp) src _ hv2)
       · have hS := ((h.setVal hp src (Val.set (DsSet.srem st [member]).1)).delKeyIf
           (DsSet.scard (DsSet.srem st [member]).1 = 0) src).signal src
         refine hS.trans0 ?_
